@@ -298,6 +298,12 @@ class Mirror(object):
                     for j in range(i + 1, nk):
                         if not (vi[i][0] and not vi[i][1]) and not (ki[j][0] and not ki[j][1]):
                             self.reasons.add('anf-dict-order')
+        if isinstance(n, (ast.Set, ast.Dict)) and any(star for _, _, star in kids):
+            # built incrementally: the items before a starred one are hashed before it is evaluated
+            self.coq_guard = False
+            first = [i for i, (_, _, star) in enumerate(kids) if star][0]
+            if first > 0:
+                self.reasons.add('anf-starred-unpack-order')
         if not self.order_ok(infos):
             self.reasons.add('anf-sibling-order')
             self.coq_guard = False
